@@ -219,10 +219,39 @@ theorem layout_dims (l : Lay) (a : SK) (n : Nat) (b : KStack) (kb k : Kind) (hb 
   | isTrue e => exact e
   | isFalse ne => exact absurd ⟨hl, ne⟩ h2
 
+/-! ### `stated`: which stacks the documented kinds speak about -/
+/-- a storage order directly over memory is always within the documented kinds … -/
+theorem stated_layout_array (l : Lay) (a : SK) (n : Nat) (s : SK) (m : Nat) : stated (.layout l a n (.array s m)) = true := by
+  simp only [stated, kind, analyse]
+  by_cases hm : m = 0 <;> simp [hm, SK.isFloat]
+/-- … wrappers other than storage orders never change it … -/
+theorem stated_wrapper (b : KStack) (p : List Nat) (t : SK) (i : Itp) (a : SK) (n : Nat) :
+    stated (.clamp b) = stated b ∧ stated (.backup b) = stated b ∧ stated (.affine b) = stated b ∧
+    stated (.shuffle p b) = stated b ∧ stated (.cast t b) = stated b ∧ stated (.deref b) = stated b ∧
+    stated (.interp i a n b) = stated b := ⟨rfl, rfl, rfl, rfl, rfl, rfl, rfl⟩
+/-- … and a storage order over a float-indexed interpolator is outside them -/
+theorem unstated_layout_over_interp (l : Lay) (a : SK) (n : Nat) (i : Itp) (c : SK) (b : KStack) (k : Kind)
+    (h : kind (.interp i c 1 b) = .ok k) : stated (.layout l a n (.interp i c 1 b)) = false := by
+  have hk : k.inSk.isFloat = true := by
+    rw [kind_compositional _ b rfl] at h
+    cases hb : kind b with
+    | error e => rw [hb] at h; simp at h
+    | ok kb =>
+      rw [hb] at h
+      simp only [layerKind] at h
+      repeat (split at h; · simp at h)
+      injection h with h; subst h
+      rename_i h1 h2 h3 h4
+      simpa using h2
+  simp only [stated, h, hk]
+  simp
+example : stated (.layout .mortonT .u64 3 (.interp .linear .f32 1 (.array .f32 3))) = false := by decide
+
 -- the ATLAS-like stack of the test suite and measured view sizes (tests of the model, compared with sizeof by the harness)
 def atlas : KStack := .affine (.interp .linear .f32 3 (.layout .strided .u64 3 (.array .f32 3)))
 example : kind atlas = .ok ⟨.f32, 3, false, .f32, 3, false⟩ := by rfl
 example : wellKinded atlas = true := by rfl
+example : stated atlas = true := by decide
 example : viewSize atlas = .ok (88, 8) := by rfl
 example : viewSize (.backup (.layout .strided .u64 3 (.array .f32 3))) = .ok (104, 8) := by rfl
 example : kind (.layout .hilbert .u64 3 (.array .f32 1)) = .error .hilbertNeeds2D := by rfl
